@@ -21,7 +21,7 @@ def recs_sx(regs, first=0):
 def gen(rng, tier):
     n = 1500 if tier == 'quick' else 40000
     for _ in range(n):
-        mode = rng.choice(['small', 'small', 'small', 'wide', 'medium'])
+        mode = rng.choice(['small', 'small', 'small', 'small', 'wide', 'medium', 'dense'])
         regs = R.rand_regions(rng, mode, rng.choice([0, 1, 2, 3, 5, 8, 12]), rng.choice(['le', 'le', 'ne', 'any']), rng.choice([1, 2, 3]))
         split = rng.choice([0, len(regs), rng.randint(0, len(regs))])
         first, rest = regs[:split], regs[split:]
